@@ -451,6 +451,15 @@ def http_part(R, quick):
                     reqs.append(("hs_fetch", [sc, h14.wire_script(script), tree, b(s.url + "/ds/1mm/"), b(name),
                                               hl, cmc, wloc]))
                     pend.append((case, out))
+                    # the failure is transient: the SAME accessor, the server healthy again, reads the chunk
+                    # (nothing of the failed attempt - half-loaded index, "missing" verdict - may survive)
+                    site.reset()
+                    again = h14.run_impl(lambda: acc2.fetch_chunk("1mm", tuple(co)))
+                    R.count(f"http:sharded:refetch:{again[0] if again[0] != 'Crash' else again[1]}")
+                    if again != good:
+                        R.violation("after a failed sharded fetch the same accessor, the server healthy again, does "
+                                    "not return the stored chunk (state of the failed attempt survives)", case,
+                                    {"first": h12._short(out), "second_fetch": h12._short(again)})
                     if out in (["IOErr"], ["AccessErr"]) or out == good:
                         continue
                     if out[0] == "ok":
